@@ -31,24 +31,29 @@ theorem inv_final (env : Env) (ops : List Op) (st : State) (h : Inv env st) (hd 
 /-- `with patcher:` outside a skipped body: either `__enter__` fails (no patcher / nothing to patch) and the body
     will be skipped, or the replacement is installed on top of the stack -/
 theorem step_enter_cases (env : Env) (st : State) (p : Nat) (hsk : st.skip = none) :
-    (step env st (.enter p)).1 = { st with skip := some (p, 0) } ∨
-    ∃ pt, st.patchers p = some pt ∧
+    (∃ pat, (step env st (.enter p)).1 = { st with skip := some (p, 0), patchers := pat }) ∨
+    ∃ pt0, st.patchers p = some pt0 ∧ ∃ pt, pt = resolveP st.bind pt0 ∧
       (step env st (.enter p)).1 =
-        { st with store := upd st.store pt.spec.target (some (installedObj pt p (st.entries p))),
+        { st with patchers := upd st.patchers p (some pt),
+                  store := upd st.store pt.spec.target (some (installedObj pt p (st.entries p))),
                   saved := upd st.saved p (some (getOriginal env st pt.spec.target)),
                   entries := upd st.entries p (match pt.new with | some _ => st.entries p | none => st.entries p + 1),
                   stack := { p := p, t := pt.spec.target, o := installedObj pt p (st.entries p) } :: st.stack } := by
   unfold step
   simp only [hsk]
   cases hpt : st.patchers p with
-  | none => left; rfl
-  | some pt =>
+  | none => left; exact ⟨_, rfl⟩
+  | some pt0 =>
     simp only []
+    generalize hpt' : resolveP st.bind pt0 = pt
     unfold enter
     simp only []
+    have hgo : getOriginal env (setPatcher st p pt) pt.spec.target = getOriginal env st pt.spec.target := rfl
+    rw [hgo]
     by_cases hc : (!pt.spec.create && (getOriginal env st pt.spec.target).1.isNone) = true
-    · left; simp only [hc, if_true]
-    · right; simp only [hc, Bool.false_eq_true, if_false]; exact ⟨pt, rfl, by rw [hsk]; rfl⟩
+    · left; simp only [hc, if_true]; exact ⟨_, rfl⟩
+    · right; simp only [hc, Bool.false_eq_true, if_false]
+      exact ⟨pt0, rfl, pt, hpt'.symm, by simp only [setPatcher, hsk]; rfl⟩
 
 /-- the block `with p: body` puts back whatever the store held before it, provided the body closed what it opened -/
 theorem block_restores (env : Env) (st : State) (p : Nat) (exc : Bool) (body : List Op) (h : Inv env st)
@@ -64,9 +69,9 @@ theorem block_restores (env : Env) (st : State) (p : Nat) (exc : Bool) (body : L
   have h2 := inv_final env body _ h1 hbody
   simp only [finalFrom, observe_fst, finalFrom_append]
   cases step_enter_cases env st p hsk with
-  | inl hs => rw [hs] at hent; cases hent
+  | inl hs => obtain ⟨pat, hs⟩ := hs; rw [hs] at hent; cases hent
   | inr hs =>
-    obtain ⟨pt, hpt, hs⟩ := hs
+    obtain ⟨pt0, hpt, pt, _, hs⟩ := hs
     generalize hst2 : finalFrom env (step env st (.enter p)).1 body = st2 at *
     rw [hs] at hbal
     simp only [] at hbal
@@ -159,10 +164,11 @@ theorem stopall_all_started (env : Env) (r : List Nat) : ∀ (st : State), Inv e
 
 
 theorem step_start_cases (env : Env) (st : State) (p : Nat) (hsk : st.skip = none) :
-    (step env st (.start p)).1 = st ∨
-    ∃ pt, st.patchers p = some pt ∧
+    (∃ pat, (step env st (.start p)).1 = { st with patchers := pat }) ∨
+    ∃ pt0, st.patchers p = some pt0 ∧ ∃ pt, pt = resolveP st.bind pt0 ∧
       (step env st (.start p)).1 =
-        { st with store := upd st.store pt.spec.target (some (installedObj pt p (st.entries p))),
+        { st with patchers := upd st.patchers p (some pt),
+                  store := upd st.store pt.spec.target (some (installedObj pt p (st.entries p))),
                   saved := upd st.saved p (some (getOriginal env st pt.spec.target)),
                   entries := upd st.entries p (match pt.new with | some _ => st.entries p | none => st.entries p + 1),
                   stack := { p := p, t := pt.spec.target, o := installedObj pt p (st.entries p) } :: st.stack,
@@ -170,14 +176,18 @@ theorem step_start_cases (env : Env) (st : State) (p : Nat) (hsk : st.skip = non
   unfold step
   simp only [hsk]
   cases hpt : st.patchers p with
-  | none => left; rfl
-  | some pt =>
+  | none => left; exact ⟨st.patchers, by cases st; simp only [] at hsk; subst hsk; rfl⟩
+  | some pt0 =>
     simp only []
+    generalize hpt' : resolveP st.bind pt0 = pt
     unfold start enter
     simp only []
+    have hgo : getOriginal env (setPatcher st p pt) pt.spec.target = getOriginal env st pt.spec.target := rfl
+    rw [hgo]
     by_cases hc : (!pt.spec.create && (getOriginal env st pt.spec.target).1.isNone) = true
-    · left; simp only [hc, if_true]
-    · right; simp only [hc, Bool.false_eq_true, if_false]; exact ⟨pt, rfl, by rw [hsk]; rfl⟩
+    · left; simp only [hc, if_true]; exact ⟨upd st.patchers p (some pt), by simp only [setPatcher, hsk]⟩
+    · right; simp only [hc, Bool.false_eq_true, if_false]
+      exact ⟨pt0, rfl, pt, hpt'.symm, by simp only [setPatcher, hsk]; rfl⟩
 
 /-- what a run of `asynq.mock.patch(...)` constructions leaves untouched -/
 theorem constructs_state (env : Env) (cs : List (Nat × PSpec)) : ∀ (st : State), st.skip = none →
@@ -197,7 +207,7 @@ theorem constructs_state (env : Env) (cs : List (Nat × PSpec)) : ∀ (st : Stat
       | some _ => exact ⟨rfl, rfl, rfl, hsk⟩
       | none =>
         simp only []
-        cases construct env.defaults c.1 c.2 with
+        cases construct env.defaults c.1 (retarget st.bind c.2) with
         | ok _ => exact ⟨rfl, rfl, rfl, rfl⟩
         | error _ => exact ⟨rfl, rfl, rfl, hsk⟩
     obtain ⟨h1, h2, h3, h4, h5⟩ := ih _ hst.2.2.2
@@ -219,9 +229,11 @@ theorem starts_state (env : Env) (ps : List Nat) : ∀ (st : State), Inv env st 
     have key : (step env st (.start p)).1.skip = none ∧ AllStarted (step env st (.start p)).1 ∧
         ∀ q ∈ ps, isOpen q (step env st (.start p)).1.stack = false := by
       cases step_start_cases env st p hsk with
-      | inl hs => rw [hs]; exact ⟨hsk, ha, fun q hq => hopen q (List.mem_cons_of_mem _ hq)⟩
+      | inl hs =>
+        obtain ⟨pat, hs⟩ := hs
+        rw [hs]; exact ⟨hsk, ha, fun q hq => hopen q (List.mem_cons_of_mem _ hq)⟩
       | inr hs =>
-        obtain ⟨pt, _, hs⟩ := hs
+        obtain ⟨pt0, _, pt, _, hs⟩ := hs
         rw [hs]
         refine ⟨hsk, ?_, fun q hq => ?_⟩
         · unfold AllStarted at *
@@ -328,14 +340,16 @@ theorem nested_blocks (env : Env) (bs : List (Nat × Bool)) :
     cases step_enter_cases env st b.1 hsk with
     | inl hs =>
       -- `__enter__` raised: the body is skipped, the end of the block ends the skipping
+      obtain ⟨pat, hs⟩ := hs
       obtain ⟨k1, k2⟩ := skipped_ops env b.1 body (step env st (.enter b.1)).1 (by rw [hs]) hne
       rw [k1, k2, hs]
-      have hexit : (step env { st with skip := some (b.1, 0) } (.exit b.1 b.2)).1 = { st with skip := none } := by
+      have hexit : (step env { st with skip := some (b.1, 0), patchers := pat } (.exit b.1 b.2)).1 =
+          { st with skip := none, patchers := pat } := by
         unfold step; simp
       rw [hexit]
       simp only [hok, Option.isSome_some, Bool.true_or, Bool.or_true, Bool.and_self, and_self]
     | inr hs =>
-      obtain ⟨pt, hpt, hs⟩ := hs
+      obtain ⟨pt0, hpt, pt, _, hs⟩ := hs
       have hinv1 := inv_step env st (.enter b.1) h (Or.inr hok)
       have hsk1 : (step env st (.enter b.1)).1.skip = none := by rw [hs]; exact hsk
       have hfree1 : ∀ x ∈ rest, isOpen x.1 (step env st (.enter b.1)).1.stack = false ∧
